@@ -324,6 +324,46 @@ pub fn run(ctx: &Ctx) -> PropReport {
     // deep nesting: moderate depths must work; the depth at which the native stack overflows is a
     // listed known finding (probe)
     let mut deep = SubReport::new("deep-nesting");
+    // structure of moderately deep programs (in-process): one item, `d` levels, d + 1 points,
+    // with siblings placed at every level so that a token dropped or mis-attached shows
+    for depth in [10usize, 40, 64, 65, 66, 100, 127, 128, 129, 200, 256, 257, 400, 700] {
+        deep.evaluations += 1;
+        let mut text = String::new();
+        for i in 0..depth {
+            text.push_str(&format!("( {} ", i));
+        }
+        text.push_str("core ");
+        for i in 0..depth {
+            text.push_str(&format!(") t{} ", i));
+        }
+        let got = match parse_into(&StateSpec::default(), &text) {
+            Ok(g) => g,
+            Err((l, m)) => {
+                deep.fail(ctx, Fail::new(format!("C03/deep-structure/panic@{}", l), m), json!({"kind": "c03-deep-structure", "depth": depth}));
+                continue;
+            }
+        };
+        // expected: EXEC = [L0, t(depth-1)] ... built iteratively: level k = ( k  level(k+1)  t(depth-2-k)... )
+        // top level: "( 0 ... ) t{depth-1}" : the list closed last is followed by t{depth-1}
+        let mut expect_inner = vec![ItemSpec::Int(depth as i32 - 1), ItemSpec::name("core")];
+        for k in (0..depth.saturating_sub(1)).rev() {
+            // closing the list of level k+1 is followed by token t{depth-2-k ... }: list (k+1) closes as the (depth-1-k)-th ')', followed by t{depth-2-k}
+            let after = ItemSpec::Name(format!("t{}", depth - 2 - k));
+            expect_inner = vec![ItemSpec::Int(k as i32), ItemSpec::List(expect_inner), after];
+        }
+        let expect = if depth == 0 { vec![ItemSpec::name("core")] } else { vec![ItemSpec::List(expect_inner), ItemSpec::Name(format!("t{}", depth - 1))] };
+        if got.exec != expect {
+            let gd = got.exec.iter().map(|x| x.depth()).max().unwrap_or(0);
+            let gp: usize = got.exec.iter().map(|x| x.points()).sum();
+            deep.fail(
+                ctx,
+                Fail::new("C03/deep-structure/tree", format!("program nested {} levels deep: parsed tree has depth {} and {} points, expected depth {} and {} points", depth, gd, gp, depth, 3 * depth + 2)),
+                json!({"kind": "c03-deep-structure", "depth": depth}),
+            );
+        } else {
+            deep.nontrivial.insert(1000 + depth as u64);
+        }
+    }
     for depth in [300usize, 1000, 3000] {
         deep.evaluations += 1;
         match deep_nesting_aborts(depth) {
